@@ -12,6 +12,9 @@ import ast
 from ..core import AnalysisError
 from ..core import RuleResult
 from ..core import norm
+from ..flow import BaseState
+from ..flow import Domain
+from ..flow import Interp
 from ..linear import lin_eq
 from ..linear import parse_expr
 from ..model import ancestors
@@ -343,6 +346,125 @@ def _classify(model, fi, a, text, depth, _busy=None):
     return kinds
 
 
+class _PS(BaseState):
+    def __init__(self, env=None):
+        self.env = dict(env or {})
+
+    def key(self):
+        return tuple(sorted(self.env.items()))
+
+    def copy(self):
+        n = _PS(self.env)
+        n.trace = self.trace
+        return n
+
+
+class _PiecesDomain(Domain):
+    """render_blocks for an output list of a known size class (0, 1,
+    2 = several): which kind of value does it return?"""
+
+    def __init__(self, out, n):
+        self.out, self.n = out, n
+        self.returned = []
+
+    def num(self, e, st):
+        if isinstance(e, ast.Constant) and isinstance(e.value, int):
+            return e.value
+        if isinstance(e, ast.Call) and norm(e.func) == 'len' and \
+                len(e.args) == 1 and norm(e.args[0]) == self.out:
+            return 'N'
+        if isinstance(e, ast.Name) and st.env.get(e.id) == 'N':
+            return 'N'
+        return None
+
+    def truth(self, e, st):
+        if isinstance(e, ast.UnaryOp) and isinstance(e.op, ast.Not):
+            v = self.truth(e.operand, st)
+            return None if v is None else not v
+        if isinstance(e, ast.BoolOp):
+            vs = [self.truth(v, st) for v in e.values]
+            if isinstance(e.op, ast.And):
+                if any(v is False for v in vs):
+                    return False
+                return True if all(v is True for v in vs) else None
+            if any(v is True for v in vs):
+                return True
+            return False if all(v is False for v in vs) else None
+        if isinstance(e, ast.Name) and e.id == self.out:
+            return self.n > 0
+        if self.num(e, st) == 'N':
+            return self.n > 0
+        if isinstance(e, ast.Compare) and len(e.ops) == 1:
+            a, b = self.num(e.left, st), self.num(e.comparators[0], st)
+            if a is None or b is None or (a == 'N') == (b == 'N'):
+                return None
+            k = b if a == 'N' else a
+            op = e.ops[0]
+            if a != 'N':
+                op = {ast.Lt: ast.Gt, ast.Gt: ast.Lt, ast.LtE: ast.GtE,
+                      ast.GtE: ast.LtE}.get(type(op), type(op))()
+            # N stands for 0, 1 or "2 or more"
+            lo, hi = (self.n, self.n) if self.n < 2 else (2, None)
+            tests = {
+                ast.Eq: (lo == hi == k, (hi is not None and
+                                         (k < lo or k > hi)) or
+                         (hi is None and k < lo)),
+                ast.Lt: (hi is not None and hi < k, lo >= k),
+                ast.LtE: (hi is not None and hi <= k, lo > k),
+                ast.Gt: (lo > k, hi is not None and hi <= k),
+                ast.GtE: (lo >= k, hi is not None and hi < k),
+            }
+            if isinstance(op, ast.NotEq):
+                t, f = tests[ast.Eq]
+                return False if t else (True if f else None)
+            if type(op) in tests:
+                t, f = tests[type(op)]
+                return True if t else (False if f else None)
+        return None
+
+    def branch(self, test, st):
+        v = self.truth(test, st)
+        if v is None:
+            return [(True, st), (False, st)]
+        return [(v, st)]
+
+    def raises(self, node, st):
+        return []
+
+    def effects(self, stmt, st):
+        if isinstance(stmt, ast.Assign) and len(stmt.targets) == 1 and \
+                isinstance(stmt.targets[0], ast.Name):
+            st = st.copy()
+            if self.num(stmt.value, st) == 'N':
+                st.env[stmt.targets[0].id] = 'N'
+            else:
+                st.env.pop(stmt.targets[0].id, None)
+        return st
+
+    def kind(self, e, st):
+        if isinstance(e, ast.IfExp):
+            t = self.truth(e.test, st)
+            if t is None:
+                return self.kind(e.body, st) | self.kind(e.orelse, st)
+            return self.kind(e.body if t else e.orelse, st)
+        if isinstance(e, ast.Constant) and e.value == '':
+            return {'EMPTY'}
+        if isinstance(e, ast.Subscript) and norm(e.value) == self.out and \
+                isinstance(e.slice, ast.Constant) and e.slice.value == 0:
+            return {'FIRST'}
+        if isinstance(e, ast.Call) and e.args and \
+                norm(e.args[0]) == self.out and \
+                'join' in norm(e.func).split('.')[-1]:
+            return {'JOIN'}
+        return {'OTHER:' + norm(e)}
+
+    def on_return(self, node, st):
+        self.returned.extend(sorted(
+            self.kind(node.value, st) if node.value is not None
+            else {'OTHER:None'}))
+        return [], st
+
+
 def rule_provenance(model):
     r = RuleResult('C01.R3', 'literal text is appended to the block lists '
                    'as plain slices of the source, rendered unchanged and '
@@ -437,11 +559,29 @@ def rule_provenance(model):
     rets = [norm(x.value) for x in own_nodes(rbs.node)
             if isinstance(x, ast.Return)]
     r.instance(rbs.where, ' | '.join(rets))
-    if not any(x.startswith('join_unicode(rendered') for x in rets) or \
-            'rendered[0]' not in rets:
-        r.finding(rbs.where, ' | '.join(rets), 'render_blocks does not '
-                  'return the pieces joined in order', node=rbs.node,
-                  ctx=rbs)
+    # decided per number of pieces (0, 1, several): what is returned
+    out = None
+    for c in own_nodes(rbs.node):
+        if isinstance(c, ast.Call) and isinstance(c.func, ast.Name) and \
+                c.func.id == rb.name and len(c.args) >= 2 and \
+                isinstance(c.args[1], ast.Name):
+            out = c.args[1].id
+    if out is None:
+        raise AnalysisError('render_blocks: call of the block interpreter '
+                            'not found')
+    for npieces, what in ((0, 'no piece'), (1, 'one piece'),
+                          (2, 'several pieces')):
+        dom = _PiecesDomain(out, npieces)
+        Interp(dom).run(rbs.node, _PS())
+        kinds = sorted(set(dom.returned))
+        r.instance(rbs.where, f'{what}: returns ' + '/'.join(kinds))
+        ok = {0: {'EMPTY', 'JOIN'}, 1: {'FIRST', 'JOIN'}, 2: {'JOIN'}}[
+            npieces]
+        if not kinds or not set(kinds) <= ok:
+            r.finding(rbs.where, ' | '.join(rets), 'render_blocks does not '
+                      'return the pieces joined in order (with ' + what +
+                      ' it returns ' + ('/'.join(kinds) or 'nothing') + ')',
+                      node=rbs.node, ctx=rbs)
     for n in own_nodes(rbs.node):
         if isinstance(n, ast.Call) and isinstance(n.func, ast.Name) and \
                 n.func.id in ('sorted', 'reversed', 'set'):
